@@ -99,6 +99,57 @@ class World(object):
         e["o"] = o
         self.evs.append(e)
 
+    def merge(self, h, o, o2):
+        """h = o + o2 (TreeArray.__add__): a new array, both operands must stay as they are"""
+        a, b = self.holders[o]["obj"], self.holders[o2]["obj"]
+        ta, raised = self.call(lambda: a + b)
+        if ta is None:
+            ta = self.dp.TreeArray(taxon_namespace=self.ns)
+        self.holders[h] = {"kind": "ta", "obj": ta, "sd": ta.split_distribution, "dl": 0}
+        e = self.base(h, "Merge", "ta.__add__", raised)
+        e["o"], e["o2"] = o, o2
+        self.evs.append(e)
+
+    def edit_target(self, tree):
+        """change the structure of a tree that already carries a bipartition encoding, without updating it"""
+        rng = self.rng
+        leaves = [nd for nd in tree.leaf_node_iter()]
+        a, b = rng.sample(leaves, 2)
+        a.taxon, b.taxon = b.taxon, a.taxon
+        if rng.random() < 0.6:
+            seed = tree.seed_node
+            movable = [x for x in leaves if x.parent_node is not None and (x.parent_node is not seed or len(seed.child_nodes()) >= 4)]
+            inner = [nd for nd in tree.preorder_internal_node_iter()]
+            if movable and len(inner) > 1:
+                x = rng.choice(movable)
+                q = rng.choice([nd for nd in inner if nd is not x.parent_node])
+                x.parent_node.remove_child(x)
+                q.add_child(x)
+
+    def history(self, h, nested, thr, first, both=True):
+        """target encoded and summarised earlier, then edited without update_bipartitions, then observed:
+        the clauses must hold on the current structure"""
+        hd = self.holders[h]
+        tree = self.tree(nested)
+        _, r0 = self.call(lambda: hd["obj"].summarize_splits_on_tree(tree))
+        if r0:
+            return
+        self.edit_target(tree)
+        if first == "collapse":
+            g0 = proj.tree_graph(tree)
+            mf = thr_float(self.dp, thr)
+            _, raised = self.call(lambda: hd["obj"].collapse_edges_with_less_than_minimum_support(tree, min_freq=mf))
+            e = self.base(h, "Collapse", hd["kind"] + ".collapse_edges_with_less_than_minimum_support/edited-after-encoding", raised)
+            e.update({"thr": thr, "g0": g0, "g1": proj.tree_graph(tree)})
+            self.evs.append(e)
+            if not both:
+                return
+        _, raised = self.call(lambda: hd["obj"].summarize_splits_on_tree(tree))
+        g, a = self.annot(tree, {})
+        e = self.base(h, "Summarize", hd["kind"] + ".summarize_splits_on_tree/edited-after-encoding", raised)
+        e.update({"g": g, "a": a})
+        self.evs.append(e)
+
     def rebuild(self, h, src, route, tl):
         kw = dict(use_tree_weights=self.uw, ignore_edge_lengths=not self.el, ignore_node_ages=not self.ag)
         if route == "tl.as_tree_array":
@@ -269,6 +320,11 @@ def battery(w, h, tl, case, full):
         w.collapse(h, nested, rng.choice(thrs), what)
         if full:
             w.collapse(h, nested, rng.choice(thrs), what)
+    if case["trees"]:
+        big = [t["nested"] for t in case["trees"]] + list(case.get("foreign", []))
+        w.history(h, rng.choice(big), rng.choice(thrs), "collapse" if full or case["seed"] % 3 else "summarize", both=full)
+        if full:
+            w.history(h, rng.choice(big), rng.choice(thrs), "summarize")
 
 
 def run_case(case):
@@ -328,6 +384,30 @@ def run_case(case):
         if w.holders[1]["kind"] == "ta":
             for kind in ("product", "sum"):
                 w.cred(1, kind, "ta.maximum_%s_of_split_support_tree" % kind)
+        # the operand is still the distribution of its own trees; more trees into either object leave the other alone
+        allt = case["trees"] + case["other"]
+        if full:
+            w.summarize(2, case["other"][-1]["nested"], {}, "input")
+        x = rng.choice(allt)
+        w.count(1, w.tree(x["nested"], x["w"]), x["w"])
+        if full:
+            w.freqs(2, nq=2)
+        w.summarize(2, case["other"][0]["nested"], rng.choice(OPTS[:2] + OPTS[6:8]) if has_len_summaries(w.holders[2]["sd"]) else {}, "input")
+        x = rng.choice(allt)
+        w.count(2, w.tree(x["nested"], x["w"]), x["w"])
+        w.summarize(1, case["trees"][0]["nested"], {}, "input")
+        if w.holders[1]["kind"] == "ta" and (full or case["seed"] % 2 == 0):
+            # a + b: a new array; both operands and the sum are re-read, also after one more tree went into an operand
+            w.merge(5, 1, 2)
+            w.summarize(1, case["trees"][-1]["nested"], {}, "input")
+            if full:
+                w.summarize(2, case["other"][-1]["nested"], {}, "input")
+            x = rng.choice(allt)
+            w.count(2, w.tree(x["nested"], x["w"]), x["w"])
+            w.summarize(5, x["nested"], {}, "input")
+            w.summarize(1, x["nested"], {}, "input")
+            if full:
+                w.consensus(5, rng.choice(case["thr"]), "ta.consensus_tree", {"sel": "mean-length"} if has_len_summaries(w.holders[5]["sd"]) else {})
     if w.inexact:
         w.evs[-1]["inexact"] = w.inexact
     for e in w.evs:
@@ -451,6 +531,9 @@ def run(ctx):
         ctx.model("MC_SplitDist", "MC_SplitDist_w3_thorough.cfg", heap=HEAP)      # <= 2 trees, 4 taxa, 3 weights, 7 thresholds
         ctx.model("MC_SplitDist", "MC_SplitDist_thorough.cfg", heap=HEAP)         # <= 3 trees, 4 taxa, 2 weights
         ctx.model("MC_SplitDist", "MC_SplitDist_n5_thorough.cfg", heap=HEAP)      # <= 2 trees, 5 taxa
+    # Update(a, b); CountTree(a, ..): b stays the distribution of its own tree; an update() that adopts b's lists is caught
+    ctx.model("MC_SplitDist", "MC_SplitDist_operand.cfg", heap="1g", count=False)
+    ctx.model("MC_SplitDist", "Alias_SplitDist.cfg", expect_violation="OperandIntact", count=False, heap="1g")
     # ... and a cache that ignores newly counted trees is caught (non-vacuity of CacheFresh)
     ctx.model("MC_SplitDist", "Stale_SplitDist.cfg", expect_violation="CacheFresh", count=False, heap="1g")
     # 2. spec -> code: the dumped multisets on real objects
